@@ -214,6 +214,19 @@ Proof.
   - apply Z.ltb_ge in Hr. rewrite Hr. reflexivity.
 Qed.
 
+Lemma seed_at_beyond seeds r : Z.of_nat (length seeds) <= r -> seed_at seeds r = Raise EValueError.
+Proof. intros H. unfold seed_at. apply Z.leb_le in H. rewrite H. reflexivity. Qed.
+
+Lemma seed_at_within seeds r : 0 <= r < Z.of_nat (length seeds) ->
+  seed_at seeds r = Val (nth (Z.to_nat r) seeds 0).
+Proof.
+  intros H. unfold seed_at.
+  assert (E : Z.of_nat (length seeds) <=? r = false) by (apply Z.leb_gt; lia). rewrite E.
+  destruct (nth_error seeds (Z.to_nat r)) as [s|] eqn:En.
+  - f_equal. symmetry. apply nth_error_nth. exact En.
+  - apply nth_error_None in En. lia.
+Qed.
+
 Theorem table_listed tbl fb n orig r seeds :
   lookup tbl n = Some seeds ->
   (r < 0 -> table_update tbl fb n orig r = Raise EValueError) /\
@@ -224,12 +237,9 @@ Proof.
   intros Hl. unfold table_update. rewrite Hl. repeat split.
   - intros Hr. apply Z.ltb_lt in Hr. rewrite Hr. reflexivity.
   - intros Hr. assert (H0 : r <? 0 = false) by (apply Z.ltb_ge; lia). rewrite H0.
-    assert (Hn : nth_error seeds (Z.to_nat r) = None) by (apply nth_error_None; lia).
-    rewrite Hn. reflexivity.
+    apply seed_at_beyond. exact Hr.
   - intros Hr. assert (H0 : r <? 0 = false) by (apply Z.ltb_ge; lia). rewrite H0.
-    destruct (nth_error seeds (Z.to_nat r)) as [s|] eqn:E.
-    + f_equal. symmetry. apply nth_error_nth. exact E.
-    + apply nth_error_None in E. lia.
+    apply seed_at_within. exact Hr.
 Qed.
 
 Theorem ill_typed_replication_refused f l :
@@ -277,8 +287,9 @@ Theorem simple_update_differs_iff_hash_differs H1 H2 n orig r :
 Proof.
   intros Hr. unfold simple_update.
   assert (H0 : r <? 0 = false) by (apply Z.ltb_ge; lia). rewrite H0. split.
-  - intros E. injection E as E'.
-    assert (E2 : r * (H1 n - H2 n) = 0) by (rewrite Z.mul_sub_distr_l; rewrite !Z.mul_add_distr_l in E'; lia).
+  - intros E.
+    assert (E' : orig + r * (1000037 + H1 n) = orig + r * (1000037 + H2 n)) by congruence.
+    assert (E2 : r * (H1 n - H2 n) = 0) by nia.
     apply Z.mul_eq_0 in E2. lia.
   - intros ->. reflexivity.
 Qed.
@@ -292,4 +303,107 @@ Proof.
   assert (H : forall l h, 0 <= h < two32 -> 0 <= fold_left hash_step l h < two32).
   { induction l as [|c t IH]; intros h Hh; cbn; [exact Hh|]. apply IH. apply hash_step_range. }
   apply H. unfold two32. lia.
+Qed.
+
+(* ---------- the current seed plays no role ---------- *)
+Definition same_ident (a b : entry) : Prop :=
+  e_kind a = e_kind b /\ e_name a = e_name b /\ e_orig a = e_orig b.
+
+Lemma update_entry_ident f r a b : same_ident a b -> update_entry f r a = update_entry f r b.
+Proof. intros [Hk [Hn Ho]]. unfold update_entry. rewrite Hk, Hn, Ho. reflexivity. Qed.
+
+Lemma set_cur_ident a b s : same_ident a b -> set_cur a s = set_cur b s.
+Proof. intros [Hk [Hn Ho]]. unfold set_cur. rewrite Hk, Hn, Ho. reflexivity. Qed.
+
+(* two configurations that differ only in the current seeds of the streams get
+   exactly the same seeds *)
+Theorem update_ignores_current_seeds f r la lb : Forall2 same_ident la lb ->
+  forall la', update_list f r la = (la', None) -> update_list f r lb = (la', None).
+Proof.
+  induction 1 as [|a b ta tb Hab Ht IH]; intros la' H; [exact H|].
+  cbn [update_list] in *. rewrite <- (update_entry_ident f r a b Hab).
+  destruct (update_entry f r a) as [s|x]; [|discriminate].
+  destruct (update_list f r ta) as [ta' xa] eqn:Ea. inversion H; subst.
+  rewrite (IH ta' eq_refl). rewrite (set_cur_ident a b s Hab). reflexivity.
+Qed.
+
+Lemma update_list_ident f r l : forall l' x, update_list f r l = (l', x) -> Forall2 same_ident l l'.
+Proof.
+  assert (Hrefl : forall l0, Forall2 same_ident l0 l0).
+  { induction l0; constructor; [repeat split|assumption]. }
+  induction l as [|e t IH]; intros l' x H; cbn [update_list] in H.
+  - inversion H. constructor.
+  - destruct (update_entry f r e) as [s|y].
+    + destruct (update_list f r t) as [t' x'] eqn:Et. inversion H; subst.
+      constructor; [repeat split|eapply IH; reflexivity].
+    + inversion H; subst. apply Hrefl.
+Qed.
+
+Lemma Forall2_same_ident_sym la lb : Forall2 same_ident la lb -> Forall2 same_ident lb la.
+Proof.
+  induction 1 as [|a b ta tb [H1 [H2 H3]] Ht IH]; constructor; [repeat split; congruence|exact IH].
+Qed.
+
+(* successive updates: what replication r2 assigns does not depend on the
+   updates (successful or refused) made before it *)
+Theorem update_history_free f r1 r2 l l1 x1 l2 :
+  update_list f r1 l = (l1, x1) -> update_list f r2 l = (l2, None) ->
+  update_list f r2 l1 = (l2, None).
+Proof.
+  intros H1 H2. eapply update_ignores_current_seeds; [|exact H2].
+  eapply update_list_ident. exact H1.
+Qed.
+
+(* ---------- update_seed for one stream ---------- *)
+Theorem update_one_refused_unchanged f r i l l' x :
+  update_one f r i l = (l', Some x) -> l' = l.
+Proof.
+  unfold update_one. destruct (nth_error l i) as [e|]; [|intros H; inversion H].
+  destruct (e_kind e), r; try (intros H; inversion H; reflexivity).
+  destruct (f (e_name e) (e_orig e) r); intros H; inversion H. reflexivity.
+Qed.
+
+Theorem update_one_ill_typed_refused f i l e :
+  nth_error l i = Some e -> update_one f RIllTyped i l = (l, Some ETypeError).
+Proof. intros H. unfold update_one. rewrite H. destruct (e_kind e); reflexivity. Qed.
+
+(* ---------- the repaired updaters, spelled out ---------- *)
+Theorem repaired_updater_spec u n orig r : 0 <= r ->
+  updater_fun str_hash u n orig r =
+  match u with
+  | USimple => Val (orig + r * (1000037 + str_hash n))
+  | UTable tbl fb =>
+      match lookup tbl n with
+      | Some seeds => if r <? Z.of_nat (length seeds) then Val (nth (Z.to_nat r) seeds 0)
+                      else Raise EValueError
+      | None => fb_fun table_update str_hash fb n orig r
+      end
+  end.
+Proof.
+  intros Hr. assert (H0 : r <? 0 = false) by (apply Z.ltb_ge; lia).
+  destruct u as [|tbl fb]; cbn [updater_fun].
+  - unfold simple_update. rewrite H0. reflexivity.
+  - unfold table_update. rewrite H0. destruct (lookup tbl n) as [seeds|]; [|reflexivity].
+    destruct (r <? Z.of_nat (length seeds)) eqn:E.
+    + apply Z.ltb_lt in E. apply seed_at_within. lia.
+    + apply Z.ltb_ge in E. apply seed_at_beyond. exact E.
+Qed.
+
+(* a replication number beyond a stream's seed list: the update is refused at
+   that stream, which keeps its seed (as do all streams after it) *)
+Theorem beyond_list_refused_stream_unchanged tbl fb r pre e post seeds :
+  e_kind e = KStream -> lookup tbl (e_name e) = Some seeds -> Z.of_nat (length seeds) <= r ->
+  (forall a, In a pre -> is_val (update_entry (table_update tbl fb) r a)) ->
+  update_list (table_update tbl fb) r (pre ++ e :: post) =
+  (map (apply_update (table_update tbl fb) r) pre ++ e :: post, Some EValueError).
+Proof.
+  intros Hk Hl Hr. induction pre as [|a pre IH]; intros Hv.
+  - cbn [app map update_list]. unfold update_entry. rewrite Hk.
+    destruct (table_listed tbl fb (e_name e) (e_orig e) r seeds Hl) as [H1 [H2 _]].
+    destruct (Z_lt_ge_dec r 0) as [Hneg|Hpos].
+    + rewrite (H1 Hneg). reflexivity.
+    + rewrite (H2 Hr). reflexivity.
+  - cbn [app map update_list]. unfold apply_update at 1.
+    destruct (Hv a (or_introl eq_refl)) as [s Hs]. rewrite Hs.
+    rewrite IH; [reflexivity|]. intros a' Ha'. apply Hv. right. exact Ha'.
 Qed.
